@@ -212,6 +212,11 @@ function jobs (plan) {
 
 function simFile (plan, name) { return plan.files.find(f => f.path === name) }
 
+// what the modules of the simulated world get as `require`: everything resolves to an empty object, except the one
+// request that node's real loader (real frames of node:internal/modules) hands to the module seam in loader.js
+const realRequire = require('module').createRequire('/sim/anchor.js')
+const simRequire = (request) => request === 'sim:call-during-load' ? realRequire(request) : ({})
+
 async function execute (plan, table) {
   const wantLog = !!process.env.VERIF_LOG
   const log = []
@@ -471,7 +476,7 @@ async function execute (plan, table) {
         const mod = { exports: {} }
         try {
           const fn = vm.compileFunction(code, ['exports', 'require', 'module', '__filename', '__dirname'], { filename: f.path })
-          fn.call(mod.exports, mod.exports, () => ({}), mod, f.path, path.dirname(f.path))
+          fn.call(mod.exports, mod.exports, simRequire, mod, f.path, path.dirname(f.path))
           loaded[f.path] = { id: lx.id, v: lx.v, exports: mod.exports, rewritten }
           log.push(`#${seq} Load f=${op.f} v=${lx.v} rewritten=${rewritten}`)
         } catch (e) {
@@ -490,7 +495,7 @@ async function execute (plan, table) {
         const mod = { exports: {} }
         try {
           const fn = vm.compileFunction(ver.text, ['exports', 'require', 'module', '__filename', '__dirname'], { filename: f.path })
-          fn.call(mod.exports, mod.exports, () => ({}), mod, f.path, path.dirname(f.path))
+          fn.call(mod.exports, mod.exports, simRequire, mod, f.path, path.dirname(f.path))
           loaded[f.path] = { id: null, v: op.v, exports: mod.exports, rewritten: false }
         } catch (e) { rep.notes.push('LoadRaw failed: ' + String(e && e.message).slice(0, 80)) }
         hist.push(['LoadRaw', op.f, 'orig'])
@@ -635,7 +640,7 @@ async function execute (plan, table) {
         let afn = null
         try {
           const cf = vm.compileFunction(ver.text, ['exports', 'require', 'module', '__filename', '__dirname'], { filename: alias })
-          cf.call(mod.exports, mod.exports, () => ({}), mod, alias, path.dirname(f.path))
+          cf.call(mod.exports, mod.exports, simRequire, mod, alias, path.dirname(f.path))
           afn = mod.exports[site.entry || site.fn]
         } catch (e) {}
         if (typeof afn !== 'function') { seq++; continue }
